@@ -14,7 +14,7 @@ PD == P(3, {2}, {1}, {})
 \* thorough: 4 items
 PE == P(4, {3}, {1, 4}, {})
 PF == P(4, {3}, {2}, {})
-PG == P(4, {3}, {1, 2}, {2})
+PG == P(4, {2}, {1, 4}, {4})
 
 Two(p, q) == (1 :> p) @@ (2 :> q)
 One(p)    == (1 :> p)
